@@ -292,6 +292,13 @@ where
     if is_4digits::<FORMAT>(bytes) {
         // SAFETY: safe since we have at least 4 bytes in the buffer.
         unsafe { iter.step_by_unchecked(4) };
+        // A contiguous component of a buffer with digit separators elsewhere
+        // counts its digits apart from the cursor: keep that count in step.
+        if cfg!(feature = "format") {
+            for _ in 0..4 {
+                iter.increment_count();
+            }
+        }
         Some(T::as_cast(parse_4digits::<FORMAT>(bytes)))
     } else {
         None
@@ -366,6 +373,13 @@ where
     if is_8digits::<FORMAT>(bytes) {
         // SAFETY: safe since we have at least 8 bytes in the buffer.
         unsafe { iter.step_by_unchecked(8) };
+        // A contiguous component of a buffer with digit separators elsewhere
+        // counts its digits apart from the cursor: keep that count in step.
+        if cfg!(feature = "format") {
+            for _ in 0..8 {
+                iter.increment_count();
+            }
+        }
         Some(T::as_cast(parse_8digits::<FORMAT>(bytes)))
     } else {
         None
